@@ -931,7 +931,7 @@ def sweeper_body(fl):
 SWEEPER_ASPECTS = {
     "C01": {"R05.6", "R06.4"},   # a charge is released for exactly the entries the sweep removes: no resident entry goes uncharged
     "C03": {"R05.6"}, "C04": {"R05.6", "R06.4"}, "C05": {"R05.6", "R06.4", "R16.5", "R08.2", "R05.8"}, "C06": {"R06.4"}, "C11": {"R05.6"},
-    "C16": {"R16.5"}, "C08": {"R08.2", "R06.4", "R05.8"}, "C09": {"R05.6"},
+    "C16": {"R16.5"}, "C08": {"R08.2", "R06.4", "R05.8", "R05.6"}, "C09": {"R05.6"},   # (C08: every entry found elapsed is taken out and reported)
 }
 
 
@@ -989,6 +989,21 @@ def _sweeper_all(rep, fl):
         rep.check(ok, "R05.6", fl, x, name + " guard", "dominated by !t.is_zero() && t.is_expired() on the stored deadline (same predicate as the lookup path)",
                   "%s is reachable on a path where the stored deadline is not known to be non-zero and elapsed (%s): an entry without TTL (zero deadline reads as expired) or an unexpired entry is swept" % (
                       name, show_state(cx) if cx else ""), loc=t["sp"])
+    # ... and the converse: once the stored deadline has been found non-zero and elapsed, the entry is taken out - no
+    # further way round the removal (a second opinion asked of the policy, say: an entry the policy does not track any
+    # more would stay in the store, out of every lookup's sight, its value never reported)
+    n_edges = 0
+    conv_ok = True
+    for bi_ in x.live_blocks():
+        t_ = x.term(bi_)
+        if t_ and t_["k"] == "switch":
+            for tgt_, atom_, pol_ in edge_literals(x, bi_):
+                if atom_ is not None and pol_ is True and is_call(norm(x.expand(atom_)), TIME + "::is_expired"):
+                    n_edges += 1
+                    conv_ok = conv_ok and must_pass_through(x, [tr[0]], from_bi=tgt_)
+    if n_edges:
+        rep.check(conv_ok, "R05.6", fl, x, "expired => removed", "from the verdict `elapsed` every path reaches store.try_remove (%d verdict edges)" % n_edges,
+                  "after the stored deadline has been found elapsed the sweeper can still leave the entry in the store (an exit between the verdict and store.try_remove): the expiry index has already forgotten the key, so the entry is never swept, its value never reported", loc=tr[1]["sp"])
     # cost read before the charge is released, same key
     okc = len(pc) == 1 and norm(x.call_args(pc[0][1])[1]) == k and precedes_each_time(x, pc[0][0], pr[0])
     rep.check(bool(okc), "R16.5", fl, x, "cost before remove", "cost = policy.cost(k) is read before policy.remove(k)",
